@@ -290,7 +290,8 @@ def to_coq(static, eager, builder, eager_wrap, builder_wrap, builder_named, inve
 # ------------------------------------------------------------------------------------------- cache inventory
 
 ANCHORED = ["onnxscript/_internal/autocast.py", "onnxscript/_internal/converter.py", "onnxscript/_internal/tape_builder.py",
-            "onnxscript/_internal/builder.py", "onnxscript/_internal/evaluator.py", "onnxscript/tensor.py"]
+            "onnxscript/_internal/builder.py", "onnxscript/_internal/evaluator.py", "onnxscript/tensor.py",
+            "onnxscript/_internal/values.py"]
 
 # (file, function, container) -> the key model in coq/Autocast/Autocast.v
 MODELLED_CACHES = {
@@ -302,12 +303,20 @@ MODELLED_CACHES = {
         "lookup/bind1 keyed by the type-variable string (String.eqb); last binding wins",
     ("onnxscript/_internal/tape_builder.py", "_cast_inputs", "type_bindings"):
         "lookup/bind1 keyed by the raw type_str (String.eqb); first binding wins",
+    ("onnxscript/_internal/values.py", "__new__", "cls.cache"):
+        "Opset instances keyed by (class, domain, VERSION): lookup_schema all name v takes the version (cross-version lookup histories)",
 }
 
 
 # dict memos in the anchored files that hold no promoted literal (reason given)
 NOT_LITERAL_CACHES = {
     ("onnxscript/_internal/builder.py", "call_inline", "attr_map"): "attribute name -> ir.Attr of the inlined call (strings; C18)",
+    ("onnxscript/_internal/converter.py", "make_value", "value.meta"): "metadata of one ir.Value: setdefault('sourceinfo', ...)",
+    ("onnxscript/_internal/converter.py", "_emit", "node.meta"): "metadata of one ir.Node: setdefault('callee', ...)",
+    ("onnxscript/_internal/converter.py", "_exit_scope", "self._current_fn.opset_imports"): "domain -> version of the function being built (C02/C13)",
+    ("onnxscript/_internal/converter.py", "_generate_unique_name", "self._used_vars"): "set of variable names already used (fresh-name generator; C01)",
+    ("onnxscript/_internal/builder.py", "_register_called_functions", "self._root._functions"): "function identifier -> ir.Function (C18)",
+    ("onnxscript/_internal/values.py", "_to_model_proto", "opset_imports"): "domain -> version of the model being serialised (C02)",
 }
 
 
@@ -333,6 +342,9 @@ def cache_inventory(repo):
             own = [n for n in ast.walk(fn) if _owner(fn, n)]
             stored = {_src(n.targets[0].value) for n in own if isinstance(n, ast.Assign) and len(n.targets) == 1
                       and isinstance(n.targets[0], ast.Subscript)}
+            # sets / lists used as (negative) memos: `if k not in SEEN: ... SEEN.add(k)`
+            stored |= {_src(n.func.value) for n in own if isinstance(n, ast.Call) and isinstance(n.func, ast.Attribute)
+                       and n.func.attr in ("add", "setdefault", "update") and isinstance(n.func.value, (ast.Name, ast.Attribute))}
             tested = set()
             for n in own:
                 if isinstance(n, ast.Compare) and len(n.ops) == 1 and isinstance(n.ops[0], (ast.In, ast.NotIn)):
